@@ -71,6 +71,16 @@ def helper_crc(helper, lib, records):
     return out
 
 
+def record_replay(ctx, exe, i, d):
+    """Keep the offending record so that the violation can be replayed by the harness alone."""
+    rdir = os.path.join(build.VERIF, "replays")
+    os.makedirs(rdir, exist_ok=True)
+    path = os.path.join(rdir, "C14-%s-%d-xref-%d.bin" % (ctx.tier, ctx.seed, i))
+    with open(path, "wb") as f:
+        f.write(struct.pack("<I", len(d)) + d)
+    return {"argv": [exe, "--mode", "xrefcheck", "--extra", path]}
+
+
 def cross_check_references(ctx, exe):
     """Once per run: harness references == Python's zlib/hashlib == released libraries (CRC64: check value + libraries)."""
     rng = random.Random(ctx.seed * 1000003 + 14)
@@ -90,11 +100,27 @@ def cross_check_references(ctx, exe):
     r = subprocess.run([exe, "--mode", "xref", "--extra", path], stdout=subprocess.PIPE, stderr=subprocess.PIPE, env=env, timeout=600)
     rows = [json.loads(l) for l in r.stdout.decode().splitlines() if l.startswith('{"t":"xref"')]
     if r.returncode != 0 or len(rows) != len(records):
-        for key, excerpt in core.parse_sanitizer(r.stderr.decode("utf-8", "replace")):
-            ctx.violation(key, excerpt, {"argv": [exe, "--mode", "xref", "--extra", path]})
+        reports = core.parse_sanitizer(r.stderr.decode("utf-8", "replace"))
+        if reports:
+            import shutil
+            keep = os.path.join(build.VERIF, "replays", "C14-%s-%d-xref-all.bin" % (ctx.tier, ctx.seed))
+            os.makedirs(os.path.dirname(keep), exist_ok=True)
+            shutil.copyfile(path, keep)
+            for key, excerpt in reports:
+                ctx.violation(key, excerpt, {"argv": [exe, "--mode", "xrefcheck", "--extra", keep]})
         ctx.inconclusive.append("reference cross-check run failed (exit %d, %d of %d records)" % (r.returncode, len(rows), len(records)))
         return
     referees = {"python_zlib_crc32": 0, "python_hashlib_sha256": 0, "crc64_check_value": 0}
+    seen = set()
+
+    def xviol(key, detail, i, d):
+        # one replay record per violation class
+        if key in seen:
+            ctx.violation(key, detail)
+        else:
+            seen.add(key)
+            ctx.violation(key, detail, record_replay(ctx, exe, i, d))
+
     bad_ref = []
     for d, row in zip(records, rows):
         c32 = "%08x" % (zlib.crc32(d) & 0xFFFFFFFF)
@@ -110,18 +136,18 @@ def cross_check_references(ctx, exe):
         referees["python_hashlib_sha256"] += 1
         # the library under test against Python directly
         if row["lib_crc32"] != c32:
-            ctx.violation("crc32-mismatch|public|vs-zlib", "lzma_crc32 of %d bytes = %s, zlib.crc32 = %s (record %d of the cross-check file)"
-                          % (len(d), row["lib_crc32"], c32, row["i"]), {"how": "python3: zlib.crc32 of the record; harness: hx_check --mode xref"})
+            xviol("crc32-mismatch|public|vs-zlib", "lzma_crc32 of %d bytes = %s, zlib.crc32 = %s (record %d of the cross-check file)"
+                  % (len(d), row["lib_crc32"], c32, row["i"]), row["i"], d)
         if row["lib_sha256"] != sha:
-            ctx.violation("sha256-mismatch|vs-hashlib", "lzma_check SHA-256 of %d bytes = %s, hashlib = %s" % (len(d), row["lib_sha256"], sha),
-                          {"how": "hx_check --mode xref"})
+            xviol("sha256-mismatch|vs-hashlib", "lzma_check SHA-256 of %d bytes = %s, hashlib = %s" % (len(d), row["lib_sha256"], sha),
+                  row["i"], d)
     if rows[0]["ref_crc64"] != "995dc9bbdf1939fa":
         bad_ref.append("crc64 check value: reference %s, published 995dc9bbdf1939fa" % rows[0]["ref_crc64"])
     else:
         referees["crc64_check_value"] = 1
     if rows[0]["lib_crc64"] != "995dc9bbdf1939fa":
-        ctx.violation("crc64-mismatch|public|check-value", "lzma_crc64(\"123456789\") = %s, published check value 995dc9bbdf1939fa" % rows[0]["lib_crc64"],
-                      {"how": "hx_check --mode xref"})
+        xviol("crc64-mismatch|public|check-value", "lzma_crc64(\"123456789\") = %s, published check value 995dc9bbdf1939fa" % rows[0]["lib_crc64"],
+              0, records[0])
     # released libraries
     try:
         helper = build_refhelper()
@@ -141,8 +167,8 @@ def cross_check_references(ctx, exe):
             if "%08x" % c32 != row["ref_crc32"] or "%016x" % c64 != row["ref_crc64"]:
                 bad_ref.append("%s: crc32 %08x crc64 %016x of %d bytes, reference %s %s" % (name, c32, c64, len(d), row["ref_crc32"], row["ref_crc64"]))
             if "%016x" % c64 != row["lib_crc64"]:
-                ctx.violation("crc64-mismatch|public|vs-released", "lzma_crc64 of %d bytes = %s, released %s gives %016x (reference %s)"
-                              % (len(d), row["lib_crc64"], name, c64, row["ref_crc64"]), {"how": "hx_check --mode xref; harness/refhelper.c op 3"})
+                xviol("crc64-mismatch|public|vs-released", "lzma_crc64 of %d bytes = %s, released %s gives %016x (reference %s)"
+                      % (len(d), row["lib_crc64"], name, c64, row["ref_crc64"]), row["i"], d)
         referees["released_" + name] = n
     ctx.extra_cov["referees"] = dict(referees, released_libraries_missing=missing)
     if missing:
